@@ -169,6 +169,7 @@ def _gallia():
     setup_repo_import()
     from gallia.services.uds.core import service
     from gallia.services.uds.core.client import UDSClient, UDSRequestConfig
+    from gallia.services.uds.ecu import ECU
     from gallia.services.uds.core.exception import IllegalResponse, MissingResponse
     from gallia.transports.base import BaseTransport, TargetURI
 
@@ -322,7 +323,7 @@ def _gallia():
             super().release()
 
     _G.update(LogLock=LogLock)
-    _G.update(service=service, UDSClient=UDSClient, UDSRequestConfig=UDSRequestConfig, IllegalResponse=IllegalResponse,
+    _G.update(service=service, UDSClient=UDSClient, ECU=ECU, UDSRequestConfig=UDSRequestConfig, IllegalResponse=IllegalResponse,
               MissingResponse=MissingResponse, FakeTransport=FakeTransport, TargetURI=TargetURI, State=State, reqs=reqs)
     return _G
 
@@ -338,7 +339,10 @@ async def impl_case(case):
     FT = G["FakeTransport"]
     FT.state = st
     tr = FT(G["TargetURI"]("fake://script"))
-    client = G["UDSClient"](tr, timeout=None if case["ct"] is None else case["ct"] / 1000, max_retry=case["cm"])
+    # every third case runs on the ECU class (the UDSClient subclass all scanners use: its _request wraps the exchange with state tracking and
+    # database logging and must hand the same outcome through), the others on the plain client
+    klass = G["ECU"] if (case["var"] + len(case["script"])) % 3 == 2 else G["UDSClient"]
+    client = klass(tr, timeout=None if case["ct"] is None else case["ct"] / 1000, max_retry=case["cm"])
     if st.x:
         client.mutex = G["LogLock"](st)
     if case["rt"] is None and case["rm"] is None:
